@@ -1,0 +1,192 @@
+//go:build verif
+
+package sched
+
+// Synchronous drivers for the two timer implementations (verification hook).
+//
+// A driver owns a timer whose worker goroutine is never started; the caller plays the
+// worker by asking for one of its select arms at a time.  Every arm runs the same
+// unexported code the worker runs.  No wall clock, no goroutine.
+
+import (
+	"time"
+)
+
+// VerifNode describes one pending node as the structure holds it.
+type VerifNode struct {
+	Level    int // wheel: 0 = near, 1..WHEEL_LEVEL = tvec[Level-1]; heap: 0
+	Slot     int // wheel: bucket index; heap: array index
+	ID       int
+	Deadline int64
+	Period   int64
+}
+
+// VerifDriver is what the harness drives.
+type VerifDriver interface {
+	Timer() Timer
+	PendingAdd() int // requests waiting in the start channel
+	PendingDel() int // requests waiting in the cancel channel
+	HandleAdd() bool // the worker's pendingAdd arm; false when nothing is pending
+	HandleDel() bool // the worker's pendingDel arm; false when nothing is pending
+	Pass(n int64)    // n time units pass, the worker does not look at the clock
+	Tick()           // the worker's ticker arm with the current virtual time
+	GuardHeld() bool // the mutex is held by somebody right now
+	Probe() (nodes []VerifNode, consistent bool)
+}
+
+// ---------------------------------------------------------------------------------------
+// wheel
+
+type VerifWheel struct {
+	t     *HHWheelTimer
+	clock int64
+}
+
+// NewVerifWheel returns a wheel placed at position currTick whose tick time is tickTime.
+func NewVerifWheel(currTick uint32, tickTime int64) *VerifWheel {
+	var t = new(HHWheelTimer).init(time.Millisecond, time.Millisecond)
+	t.currTick = currTick
+	t.tickTime = tickTime
+	t.lastTime = tickTime
+	return &VerifWheel{t: t, clock: tickTime}
+}
+
+func (v *VerifWheel) Timer() Timer     { return v.t }
+func (v *VerifWheel) PendingAdd() int  { return len(v.t.pendingAdd) }
+func (v *VerifWheel) PendingDel() int  { return len(v.t.pendingDel) }
+func (v *VerifWheel) CurrTick() uint32 { return v.t.currTick }
+func (v *VerifWheel) TickTime() int64  { return v.t.tickTime }
+
+func (v *VerifWheel) HandleAdd() bool {
+	select {
+	case node := <-v.t.pendingAdd:
+		// the worker's arm, repeated (it is written inline in worker())
+		node.deadline += v.t.tickTime + node.period
+		v.t.addNode(node)
+		return true
+	default:
+		return false
+	}
+}
+
+func (v *VerifWheel) HandleDel() bool {
+	select {
+	case node := <-v.t.pendingDel:
+		v.t.delTimer(node)
+		return true
+	default:
+		return false
+	}
+}
+
+func (v *VerifWheel) Pass(n int64) { v.clock += n }
+
+func (v *VerifWheel) Tick() { v.t.update(v.clock) }
+
+func (v *VerifWheel) GuardHeld() bool {
+	if v.t.guard.TryLock() {
+		v.t.guard.Unlock()
+		return false
+	}
+	return true
+}
+
+func (v *VerifWheel) Probe() (nodes []VerifNode, consistent bool) {
+	consistent = true
+	var walk = func(level, slot int, b *WheelTimerBucket) {
+		var n int32
+		var prev *WheelTimerNode
+		for node := b.head; node != nil; node = node.next {
+			if node.bucket != b || node.prev != prev {
+				consistent = false
+			}
+			nodes = append(nodes, VerifNode{Level: level, Slot: slot, ID: node.id, Deadline: node.deadline, Period: node.period})
+			prev = node
+			n++
+			if n > 1<<24 {
+				consistent = false
+				return
+			}
+		}
+		if b.tail != prev || (b.head != nil && b.size != n) {
+			consistent = false
+		}
+	}
+	for i := 0; i < TVR_SIZE; i++ {
+		walk(0, i, &v.t.near[i])
+	}
+	for k := 0; k < WHEEL_LEVEL; k++ {
+		for i := 0; i < len(v.t.tvec[k]); i++ {
+			walk(k+1, i, &v.t.tvec[k][i])
+		}
+	}
+	return
+}
+
+// ---------------------------------------------------------------------------------------
+// heap
+
+type VerifHeap struct {
+	s     *TimerQueue
+	clock int64
+}
+
+// NewVerifHeap returns a heap timer whose time unit is one nanosecond of the virtual
+// clock; the clock starts at `now`.  It installs the package's VerifNow (one driver at
+// a time).
+func NewVerifHeap(now int64) *VerifHeap {
+	var v = &VerifHeap{s: NewTimerQueue(time.Millisecond, time.Nanosecond).(*TimerQueue), clock: now}
+	VerifNow = func() time.Time { return time.Unix(0, v.clock) }
+	return v
+}
+
+func (v *VerifHeap) Timer() Timer    { return v.s }
+func (v *VerifHeap) PendingAdd() int { return len(v.s.pendingAdd) }
+func (v *VerifHeap) PendingDel() int { return len(v.s.pendingDel) }
+
+func (v *VerifHeap) HandleAdd() bool {
+	select {
+	case node := <-v.s.pendingAdd:
+		v.s.addNode(node)
+		return true
+	default:
+		return false
+	}
+}
+
+func (v *VerifHeap) HandleDel() bool {
+	select {
+	case node := <-v.s.pendingDel:
+		v.s.delNode(node)
+		return true
+	default:
+		return false
+	}
+}
+
+func (v *VerifHeap) Pass(n int64) { v.clock += n }
+
+func (v *VerifHeap) Tick() { v.s.tick(time.Unix(0, v.clock)) }
+
+func (v *VerifHeap) GuardHeld() bool {
+	if v.s.guard.TryLock() {
+		v.s.guard.Unlock()
+		return false
+	}
+	return true
+}
+
+func (v *VerifHeap) Probe() (nodes []VerifNode, consistent bool) {
+	consistent = true
+	var h = v.s.timers
+	for i, node := range h {
+		if node.index != i {
+			consistent = false
+		}
+		if i > 0 && h.Less(i, (i-1)/2) {
+			consistent = false
+		}
+		nodes = append(nodes, VerifNode{Slot: i, ID: node.id, Deadline: node.deadline, Period: node.period})
+	}
+	return
+}
